@@ -26,7 +26,7 @@ pub fn prop() -> Prop {
                x tag set {none, vid 0 with PCP 0/7, vid 0x67 with PCP 0/7, vid 1, vid 0xfff}, Advance(1, T-1, T, T+1) with T = switch timeout, Drop(node) (silenced \
                until its peers forgot it), Close(node) (close broadcast, checked before any tick); a 3-injection alphabet variant goes deeper; after every injection the set of nodes whose interface received the frame must equal the reference (learned peer if the \
                (VLAN, MAC) key is known and fresh, else every peer), byte-identical, once, with as many wire datagrams; canonical state = all nodes' learned tables \
-               with ages. Hub and router variants: no learned entry ever. Tag normalisation: all 65536 tag-control values. distinct_nontrivial = canonical states",
+               with ages. Hub and router variants: no learned entry ever. Tag normalisation: all 65536 tag-control values. Plus a quiet variant (default peer timeout) and the mode x device matrix. distinct_nontrivial = canonical states",
         run,
         replay,
     }
